@@ -49,6 +49,7 @@ def encode(node):
 
 def install():
     compat.patch_axolotl_padding(True)
+    compat.patch_axolotl_senderkey_order(True)
     small_key_batches()
     netmod.AsyncoreConnectionDispatcher = FakeDispatcher
     netmod.SocketConnectionDispatcher = FakeDispatcher
